@@ -194,15 +194,35 @@ Definition acc_t := bytes -> res (option bytes).
      for line in source:
          tokens = line.rstrip("\n").split("\t")
          if len(tokens) >= k: <row>                                        *)
-Definition parse_generic {R} (required : list bytes) (min_tokens : nat)
+Definition parse_generic_with {R} (split : bytes -> list bytes) (required : list bytes) (min_tokens : nat)
     (row : acc_t -> acc_t -> res (list R)) (text : bytes) : res (list R) :=
   let ls := file_lines text in
-  let header := split_on TAB (hd [] ls) in
+  let header := split (hd [] ls) in
   do _ <- check_required required header;
   concat_res (map (fun line =>
-      let tokens := split_on TAB line in
+      let tokens := split line in
       if Nat.ltb (length tokens) min_tokens then Ok []
       else row (accessor header tokens) (accessor_guarded header tokens)) (tl ls)).
+
+(* strict=True: sep = "\t" *)
+Notation parse_generic := (parse_generic_with (split_on TAB)).
+
+(* strict=False: str.split(None) — runs of whitespace separate, leading and trailing
+   whitespace is dropped, so there are no empty tokens.  ASCII whitespace as str.isspace:
+   \t \n \v \f \r, 0x1c-0x1f and the space (non-ASCII spaces such as U+00A0 are outside
+   this byte-level model). *)
+Definition is_space (c : Z) : bool := ((9 <=? c) && (c <=? 13)) || ((28 <=? c) && (c <=? 32)).
+
+Fixpoint split_ws_go (s : bytes) (cur : option bytes) : list bytes :=   (* cur: current word, reversed *)
+  match s with
+  | [] => match cur with Some w => [rev w] | None => [] end
+  | c :: s' =>
+      if is_space c then
+        match cur with Some w => rev w :: split_ws_go s' None | None => split_ws_go s' None end
+      else split_ws_go s' (Some (c :: match cur with Some w => w | None => [] end))
+  end.
+
+Definition split_ws (s : bytes) : list bytes := split_ws_go s None.
 
 (* ------------------------------------------------------------------ *)
 (* decimal integers (the concrete instance used by the correspondence)  *)
@@ -375,6 +395,22 @@ Section Tables.
   Definition parse_migrations : bytes -> res (list migration_row) :=
     parse_generic (names c17_parse_required_migrations) c17_parse_min_tokens_migrations row_migrations.
 
+  (* ---------------- the same parsers with strict=False ---------------- *)
+  Definition parse_nodes_ws : bytes -> res (list node_row) :=
+    parse_generic_with split_ws (names c17_parse_required_nodes) c17_parse_min_tokens_nodes row_nodes.
+  Definition parse_edges_ws : bytes -> res (list edge_row) :=
+    parse_generic_with split_ws (names c17_parse_required_edges) c17_parse_min_tokens_edges row_edges.
+  Definition parse_sites_ws : bytes -> res (list site_row) :=
+    parse_generic_with split_ws (names c17_parse_required_sites) c17_parse_min_tokens_sites row_sites.
+  Definition parse_mutations_ws : bytes -> res (list mutation_row) :=
+    parse_generic_with split_ws (names c17_parse_required_mutations) c17_parse_min_tokens_mutations row_mutations.
+  Definition parse_individuals_ws : bytes -> res (list individual_row) :=
+    parse_generic_with split_ws (names c17_parse_required_individuals) c17_parse_min_tokens_individuals row_individuals.
+  Definition parse_populations_ws : bytes -> res (list bytes) :=
+    parse_generic_with split_ws (names c17_parse_required_populations) c17_parse_min_tokens_populations row_populations.
+  Definition parse_migrations_ws : bytes -> res (list migration_row) :=
+    parse_generic_with split_ws (names c17_parse_required_migrations) c17_parse_min_tokens_migrations row_migrations.
+
   (* ---------------- dump_text (base64_metadata = True, bytes metadata) ---------------- *)
 
   Definition dump_table (header : list string) (rows : list (list bytes)) : bytes :=
@@ -424,7 +460,52 @@ Section Tables.
       (map (fun '(l, r, n, s, d, t, m) =>
               [print_repr l; print_repr r; print_int n; print_int s; print_int d; print_repr t;
                b64encode m; []]) rows).
+  (* provenances: "{id}\t{timestamp}\t{record}\t" — written, no reader exists *)
+  Definition dump_provenances (rows : list (bytes * bytes)) : bytes :=
+    dump_table c17_dump_header_provenances
+      (map (fun '(id, (ts, rec)) => [print_int id; ts; rec; []]) (number_from 0 rows)).
 End Tables.
+
+(* ------------------------------------------------------------------ *)
+(* load_text: the population back-fill (trees.py l.3970-3976)           *)
+(* ------------------------------------------------------------------ *)
+
+(* tc.nodes.population.max() *)
+Definition max_population (pops : list Z) : option Z :=
+  match pops with
+  | [] => None                       (* `if len(tc.nodes) > 0` *)
+  | p :: t => Some (fold_left Z.max t p)
+  end.
+
+(* populations=None: one empty row per id up to the largest one the nodes refer to *)
+Definition backfill_populations (pops : list Z) : list bytes :=
+  match max_population pops with
+  | None => []
+  | Some m => if m =? -1 then [] else repeat [] (Z.to_nat (m + 1))     (* range(max_population + 1) *)
+  end.
+
+(* ------------------------------------------------------------------ *)
+(* base64_metadata=False: text_metadata writes repr(bytes)              *)
+(* ------------------------------------------------------------------ *)
+
+Definition hex_digit (d : Z) : Z := if d <? 10 then 48 + d else 87 + d.    (* lowercase *)
+
+(* CPython bytes.__repr__: the quote is the apostrophe (39) unless the value contains an
+   apostrophe and no double quote (34) *)
+Definition repr_quote (l : bytes) : Z :=
+  if existsb (fun c => c =? 39) l && negb (existsb (fun c => c =? 34) l) then 34 else 39.
+
+Definition repr_byte (quote c : Z) : bytes :=
+  if (c =? quote) || (c =? 92) then [92; c]
+  else if c =? 9 then [92; 116]
+  else if c =? 10 then [92; 110]
+  else if c =? 13 then [92; 114]
+  else if (c <? 32) || (127 <=? c) then [92; 120; hex_digit (c / 16); hex_digit (c mod 16)]
+  else [c].
+
+Definition bytes_repr (l : bytes) : bytes :=
+  let q := repr_quote l in
+  98 :: q :: concat (map (repr_byte q) l) ++ [q].        (* b'...' *)
 
 (* ------------------------------------------------------------------ *)
 (* instance used by the correspondence: floats are their own tokens     *)
@@ -464,6 +545,14 @@ Definition c_parse_individuals := parse_individuals bytes dec_parse tok_some.
 Definition c_parse_populations := parse_populations.
 Definition c_parse_migrations := parse_migrations bytes dec_parse tok_some.
 
+Definition c_parse_nodes_ws := parse_nodes_ws bytes dec_parse tok_some.
+Definition c_parse_edges_ws := parse_edges_ws bytes dec_parse tok_some.
+Definition c_parse_sites_ws := parse_sites_ws bytes tok_some.
+Definition c_parse_mutations_ws := parse_mutations_ws bytes dec_parse tok_some.
+Definition c_parse_individuals_ws := parse_individuals_ws bytes dec_parse tok_some.
+Definition c_parse_populations_ws := parse_populations_ws.
+Definition c_parse_migrations_ws := parse_migrations_ws bytes dec_parse tok_some.
+
 Definition c_dump_nodes := dump_nodes bytes dec_print tok_id.
 Definition c_dump_edges := dump_edges bytes dec_print tok_id.
 Definition c_dump_sites := dump_sites bytes tok_id.
@@ -471,3 +560,4 @@ Definition c_dump_mutations := dump_mutations bytes dec_print tok_id.
 Definition c_dump_individuals := dump_individuals bytes dec_print tok_id.
 Definition c_dump_populations := dump_populations dec_print.
 Definition c_dump_migrations := dump_migrations bytes dec_print tok_id.
+Definition c_dump_provenances := dump_provenances dec_print.
